@@ -315,6 +315,9 @@ macro_rules! chk_numbits {
                 format!("{}", $m.n_ones()),
             ));
         }
+        if $out.violation.is_none() && ($s.num_ones(), $s.num_zeros()) != ($m.n_ones(), $m.len - $m.n_ones()) {
+            $out.fail(Violation::new("num_ones", format!("ranksel:{}:num_ones_method_syntax:{}", $name, $tail), format!("{} ones, {} zeros", $s.num_ones(), $s.num_zeros()), format!("{} ones of {}", $m.n_ones(), $m.len)));
+        }
         if $out.violation.is_none() && NumBits::num_zeros(&$s) != $m.len - $m.n_ones() {
             $out.fail(Violation::new("num_zeros", format!("ranksel:{}:num_zeros:{}", $name, $tail), format!("{}", NumBits::num_zeros(&$s)), format!("{}", $m.len - $m.n_ones())));
         }
@@ -342,6 +345,12 @@ macro_rules! chk_rank {
             if gz != wz {
                 $out.fail(Violation::new("rank_zero", format!("ranksel:{}:rank_zero:{}", $name, $tail), format!("rank_zero({p}) = {gz}"), format!("{wz}")));
             }
+            // the same queries in the method-call syntax a user writes: an inherent method on one
+            // concrete structure type shadows the trait method there and only there
+            let (gm, gzm) = ($s.rank(p), $s.rank_zero(p));
+            if (gm, gzm) != (want, wz) && $out.violation.is_none() {
+                $out.fail(Violation::new("rank", format!("ranksel:{}:rank_method_syntax:{}", $name, $tail), format!("s.rank({p}) = {gm}, s.rank_zero({p}) = {gzm}"), format!("{want}, {wz}")));
+            }
         }
     }};
 }
@@ -357,6 +366,9 @@ macro_rules! chk_select {
             }
             let got = Select::select(&$s, r);
             $out.checks += 1;
+            if got == Some($m.ones[r]) && $s.select(r) != got {
+                $out.fail(Violation::new("select", format!("ranksel:{}:select_method_syntax:{}", $name, $tail), format!("s.select({r}) = {:?}", $s.select(r)), format!("{got:?}")));
+            }
             if got != Some($m.ones[r]) {
                 $out.fail(Violation::new("select", format!("ranksel:{}:select:{}", $name, $tail), format!("select({r}) = {got:?} (len {}, ones {cnt})", $m.len), format!("Some({})", $m.ones[r])));
             }
@@ -385,6 +397,9 @@ macro_rules! chk_select_zero {
             }
             let got = SelectZero::select_zero(&$s, r);
             $out.checks += 1;
+            if got == Some($m.zeros[r]) && $s.select_zero(r) != got {
+                $out.fail(Violation::new("select_zero", format!("ranksel:{}:select_zero_method_syntax:{}", $name, $tail), format!("s.select_zero({r}) = {:?}", $s.select_zero(r)), format!("{got:?}")));
+            }
             if got != Some($m.zeros[r]) {
                 $out.fail(Violation::new(
                     "select_zero",
